@@ -38,7 +38,13 @@ Inductive req :=
 | AllocPut (v : Z) (c : cons_in)
 | AllocPost (v : Z) (l : list cons_in)
 | AllocDelete (c : Z)
-| Reshape (v : Z) (ri : list rinv_in) (al : list cons_in).
+| Reshape (v : Z) (ri : list rinv_in) (al : list cons_in)
+| RcCreate (v n : Z)
+| RcPut (v n : Z)
+| RcRename (v old new : Z)
+| RcDelete (v n : Z)
+| TraitPut (v t : Z)
+| TraitDelete (v t : Z).
 
 (* _validate_inventory_capacity on Inventory.capacity = int((total - reserved) * ratio) *)
 Definition bad_capacity (v : Z) (x : inv_in) : bool :=
@@ -367,7 +373,9 @@ Definition reshape_txn (d : db) (ri : list rinv_in) (objs : list areq) : result 
                              | Some g => mkAreq (q_cons a) (q_cgen a) (q_rp a) g (q_rc a) (q_amt a)
                              | None => a end) objs in
   do d2 <- set_allocations d1 objs';
-  reshape_final d2 ri gens.
+  (* increment_generation also bumps the shared Python provider object *)
+  let gens' := map (fun x => (fst x, if memZ (fst x) (map q_rp objs') then snd x + 1 else snd x)) gens in
+  reshape_final d2 ri gens'.
 
 (* early checks of the handler: provider exists (400) and generation matches (409) *)
 Fixpoint reshape_precheck (d : db) (ri : list rinv_in) : option resp :=
@@ -408,6 +416,55 @@ Definition h_reshape (cf : cfg) (d : db) (v : Z) (ri : list rinv_in) (al : list 
       end
   end.
 
+(* ---------------------------------------------------------------- resource classes / traits *)
+Definition h_rc_create (d : db) (v n : Z) : db * resp :=
+  if v <? 2 then (d, err 404 C_DEFAULT) else
+  if is_std_rc_name n then (d, err 400 C_DEFAULT) else      (* schema: name must match ^CUSTOM_ *)
+  match rc_create d n with
+  | Ok d' => (d', ok 201)
+  | Err _ => (d, err 409 C_DEFAULT)
+  end.
+Definition h_rc_put (d : db) (v n : Z) : db * resp :=
+  if v <? 7 then (d, err 404 C_DEFAULT) else
+  if is_std_rc_name n then (d, err 400 C_DEFAULT) else
+  match rc_id_of_name d n with
+  | Some _ => (d, ok 204)
+  | None => match rc_create d n with Ok d' => (d', ok 201) | Err _ => (d, ok 204) end
+  end.
+Definition h_rc_rename (d : db) (v old new : Z) : db * resp :=
+  if v <? 2 then (d, err 404 C_DEFAULT) else
+  if 6 <? v then h_rc_put d v old else       (* from 1.7 the body is ignored *)
+  if is_std_rc_name new then (d, err 400 C_DEFAULT) else
+  match rc_rename d old new with
+  | Ok d' => (d', ok 200)
+  | Err ERcNotFound => (d, err 404 C_DEFAULT)
+  | Err ERcStandard => (d, err 400 C_DEFAULT)
+  | Err _ => (d, err 409 C_DEFAULT)
+  end.
+Definition h_rc_delete (d : db) (v n : Z) : db * resp :=
+  if v <? 2 then (d, err 404 C_DEFAULT) else
+  match rc_destroy d n with
+  | Ok d' => (d', ok 204)
+  | Err ERcNotFound => (d, err 404 C_DEFAULT)
+  | Err ERcStandard => (d, err 400 C_DEFAULT)
+  | Err _ => (d, err 409 C_DEFAULT)
+  end.
+Definition h_trait_put (d : db) (v t : Z) : db * resp :=
+  if v <? 6 then (d, err 404 C_DEFAULT) else
+  if is_std_trait t then (d, err 400 C_DEFAULT) else         (* schema: ^CUSTOM_ *)
+  match trait_create d t with
+  | Ok d' => (d', ok 201)
+  | Err _ => (d, ok 204)
+  end.
+Definition h_trait_delete (d : db) (v t : Z) : db * resp :=
+  if v <? 6 then (d, err 404 C_DEFAULT) else
+  match trait_destroy d t with
+  | Ok d' => (d', ok 204)
+  | Err ETraitNotFound => (d, err 404 C_DEFAULT)
+  | Err ETraitStandard => (d, err 400 C_DEFAULT)
+  | Err _ => (d, err 409 C_DEFAULT)
+  end.
+
 (* ---------------------------------------------------------------- dispatcher *)
 Definition step (cf : cfg) (d : db) (r : req) : db * resp :=
   match r with
@@ -426,6 +483,12 @@ Definition step (cf : cfg) (d : db) (r : req) : db * resp :=
   | AllocPost v l => h_alloc_post cf d v l
   | AllocDelete c => h_alloc_delete d c
   | Reshape v ri al => h_reshape cf d v ri al
+  | RcCreate v n => h_rc_create d v n
+  | RcPut v n => h_rc_put d v n
+  | RcRename v old new => h_rc_rename d v old new
+  | RcDelete v n => h_rc_delete d v n
+  | TraitPut v t => h_trait_put d v t
+  | TraitDelete v t => h_trait_delete d v t
   end.
 
 Fixpoint run (cf : cfg) (d : db) (l : list req) : db :=
